@@ -105,15 +105,13 @@ impl EventGen for ReuseElement {
             context.pop_element();
         })?;
 
-        let inst_el = match context.get_element(&elref) {
-            Some(el) => el,
-            None => {
-                context.pop_element();
-                return Err(SvgdxError::ReferenceError(elref.clone()));
-            }
-        };
+        // The target need not have been resolved where it stands (e.g. a template in a
+        // specs block which depends on variables supplied by the reuse element); the
+        // original looked up above is what is instantiated. A resolved target only
+        // contributes the size of its content.
+        let content_bbox = context.get_element(&elref).and_then(|el| el.content_bbox);
         let mut pos = Position::from(&reuse_element);
-        if let Some(bb) = inst_el.content_bbox {
+        if let Some(bb) = content_bbox {
             pos.update_size(&bb.size());
         } else if let Some(sz) = instance_size {
             pos.update_size(&sz);
